@@ -263,9 +263,31 @@ def _full_case(group, P, lam, which):
     return exp, got
 
 
+def _failing_calls():
+    """history (results and exceptions ignored): calls that fail or are refused inside the library - mixed
+    coordinate classes, an off-curve triple that shares x with a subgroup point, wrong arity"""
+    O = importlib.import_module("py_ecc.optimized_bls12_381")
+    G = _g2p()
+    H = importlib.import_module("py_ecc.bls.hash_to_curve")
+    x2, y2, z2 = O.G2
+    x1, y1, z1 = O.G1
+    bad = [lambda: G.subgroup_check((x2, y2, O.FQ12.one())), lambda: O.multiply((x2, y2, O.FQ12.one()), 3),
+           lambda: O.add(O.G1, O.G2), lambda: O.add(O.G2, (x2, y2, O.FQ12([1] * 12))),
+           lambda: G.subgroup_check((x1, y1 + 1, z1)), lambda: G.subgroup_check((x2, y2 + O.FQ2.one(), z2)),
+           lambda: G.subgroup_check((x1, y1)), lambda: H.clear_cofactor_G2((x2, y2, O.FQ12.one())),
+           lambda: H.clear_cofactor_G2((x1, y1, z1)), lambda: H.clear_cofactor_G1((x2, y2, z2)),
+           lambda: x2 * O.FQ12.one(), lambda: O.FQ12.one() * x2, lambda: G.subgroup_check(None)]
+    for f in bad:
+        try:
+            f()
+        except Exception:  # noqa: BLE001
+            pass
+
+
 def task_full(a, env):
     group = a["group"]
     r = R("full:%s:torsion-alphabet" % group)
+    _failing_calls()
     thorough = env["tier"] == "thorough"
     dom, primes = _torsion_domain(group, env, thorough)
     cfg = C07_full.field_cfg("bls12_381", group, "opt")
@@ -283,6 +305,8 @@ def task_full(a, env):
         allreps = base + ([("fq", x) for x in base[:2]] if fqvariants else [])
         for li, lam in enumerate(allreps):
             for which in ("subgroup_check", "clear_cofactor"):
+                if li < 2:
+                    _failing_calls()
                 exp, got = _full_case(group, P, lam, which)
                 r.ev += 1
                 r.transitions += 1
@@ -300,6 +324,7 @@ def task_full(a, env):
 
 
 def replay_full(a):
+    _failing_calls()
     env = {"seed": a["seed"], "pid": "C17", "tier": a["tier"]}
     thorough = a["tier"] == "thorough"
     dom, _ = _torsion_domain(a["group"], env, thorough)
